@@ -113,6 +113,8 @@ def odd_key_table():
 def witness_oracle(ops, lines):
     """the server keeps running and the well-behaved session keeps being answered correctly"""
     if any(l in ("HARNESS-FAILURE", "crash") for l in lines) or len(lines) < len(ops):
+        if lines and ":noanswer" in lines[-1]:
+            return (len(lines) - 1, f"the request {str(ops[len(lines) - 1])[:200]} was not answered within 20 s: the server no longer serves its clients")
         return (min(len(lines), len(ops)) - 1, "the server (or the harness talking to it) went down")
     for i, (op, line) in enumerate(zip(ops, lines)):
         got = [(s, decode_msg(t)) for s, t in parse_out(line)]
@@ -127,6 +129,29 @@ def witness_oracle(ops, lines):
                 return (i, f"the witness's get returned {mine}, expected value {t - 1000}")
     return None
 
+CFG = {}
+def RR(o): return f"fill {o[1]} {o[2]} {o[3]}" if o[0] == "fill" else R(o)
+def bulk_cases():
+    """large states against small channels: every channel of the server has room for `buf` messages only (the capacity is
+    configuration: WORTERBUCH_CHANNEL_BUFFER_SIZE), one client fills a subtree with hundreds of keys and then asks for all of
+    it at once in every way the protocol offers (pattern subscription with snapshot, pGet, pLs, subscribeLs, pDelete), with
+    another subscriber watching; the witness must be answered throughout"""
+    out = []
+    for buf, n in ((1, 260), (2, 450), (4, 1030)):
+        nm = f"bulk-buf{buf}-{n}"
+        CFG[nm] = f"cfg auth=0 buf={buf}"
+        W = lambda t: [("send", 0, {"set": {"transactionId": 100 + t, "key": f"witness/{100 + t}", "value": 100 + t}}), ("send", 0, {"get": {"transactionId": 1100 + t, "key": f"witness/{100 + t}"}})]
+        ops = [("open", 0), ("open", 1), ("open", 2), ("fill", 1, "big", n)] + W(1)
+        ops += [("send", 2, {"pSubscribe": {"transactionId": 5, "requestPattern": "big/#", "unique": False, "liveOnly": False}})] + W(2)
+        ops += [("send", 1, {"pGet": {"transactionId": 2000, "requestPattern": "big/?"}})] + W(3)
+        ops += [("send", 1, {"subscribeLs": {"transactionId": 2001, "parent": "big"}})] + W(4)
+        ops += [("send", 1, {"pLs": {"transactionId": 2002, "parentPattern": "?"}})] + W(5)
+        ops += [("send", 1, {"pSubscribe": {"transactionId": 2003, "requestPattern": "#", "unique": True, "liveOnly": False}})] + W(6)
+        ops += [("send", 1, {"pDelete": {"transactionId": 2004, "requestPattern": "big/#", "quiet": None}})] + W(7)
+        ops += [("close", 1)] + W(8)
+        out.append((nm, ops))
+    return out
+
 def run(v, tier, seed):
     work = os.path.join(WORK, ID); os.makedirs(work, exist_ok=True)
     n = 120 if tier == "quick" else 3000
@@ -135,9 +160,9 @@ def run(v, tier, seed):
                                        ("send", 1, {"releaseLock": {"transactionId": 3, "key": "y"}}), ("send", 0, {"set": {"transactionId": 101, "key": "witness/101", "value": 101}}), ("send", 0, {"get": {"transactionId": 1101, "key": "witness/101"}})]),
               ("F1-rejected-cset", [("open", 0), ("open", 1), ("send", 1, {"cSet": {"transactionId": 1, "key": "p/q/r", "value": 1, "version": 5}}), ("send", 1, {"set": {"transactionId": 2, "key": "z", "value": 1}}),
                                     ("send", 1, {"delete": {"transactionId": 3, "key": "z"}}), ("send", 0, {"set": {"transactionId": 101, "key": "witness/101", "value": 101}}), ("send", 0, {"get": {"transactionId": 1101, "key": "witness/101"}})])]
-    cases = corpus + odd_key_table() + cases
+    cases = corpus + odd_key_table() + bulk_cases() + cases
     cpath = os.path.join(work, "cases.txt")
-    write_cases(cpath, [(nm, ["cfg auth=0"] + [R(o) for o in ops]) for nm, ops in cases])
+    write_cases(cpath, [(nm, [CFG.get(nm, "cfg auth=0")] + [RR(o) for o in ops]) for nm, ops in cases])
     impl, model = run_engine("session", "session_driver", cpath, work)
     A, B = read_obs(impl), read_obs(model)
     A = {nm: align_closed(A[nm], B.get(nm, [])) for nm in A}
@@ -157,7 +182,7 @@ def run(v, tier, seed):
         if c: nontrivial.add(nm)
         if bad:
             step, msg = bad
-            v.violation({"what": msg, "case": nm, "engine": "session", "driver": "session_driver", "ops": ["cfg auth=0"] + [R(o) for o in ops[:step + 1]], "ops_readable": [str(o)[:300] for o in ops[max(0, step - 6):step + 1]]})
+            v.violation({"what": msg, "case": nm, "engine": "session", "driver": "session_driver", "ops": [CFG.get(nm, "cfg auth=0")] + [RR(o) for o in ops[:step + 1]], "ops_readable": [str(o)[:300] for o in ops[max(0, step - 6):step + 1]]})
             if len(v.violations) >= 3: break
         if len(samples) < 2 and c >= 2:
             samples.append({"case": nm, "attacker_lines": [str(o)[:120] for o in ops if o[0] in ("send", "raw") and o[1] != 0][:6]})
@@ -165,7 +190,7 @@ def run(v, tier, seed):
         nm, i = diffs[0]
         ops = dict(cases)[nm]
         v.violation({"what": "model and implementation disagree on what the witness session sees or on which session is closed; the server stayed up and the witness was served correctly", "case": nm,
-                     "engine": "session", "driver": "session_driver", "ops": ["cfg auth=0"] + [R(o) for o in ops[:i]], "last_op": str(ops[i - 1])[:300] if i > 0 else None,
+                     "engine": "session", "driver": "session_driver", "ops": [CFG.get(nm, "cfg auth=0")] + [RR(o) for o in ops[:i]], "last_op": str(ops[i - 1])[:300] if i > 0 else None,
                      "impl": proj(A[nm][i]), "model": proj(B[nm][i]), "disagreeing_cases": len(set(n_ for n_, _ in diffs)),
                      "broken_obligation": "correspondence session/C17 (Model/Session.v sstep SGarbage/close_session; decoder agreement on malformed input)"}, no_input=True)
     v.cov.update({"evaluations": len(cases), "distinct_nontrivial": len(nontrivial), "disagreements": len(diffs), "lines_sent": lines_sent, "sessions_closed_by_server": closed,
